@@ -114,7 +114,7 @@ func (obj *NumericEstimator) Estimate(gamma ConstVector, p ThreadPool) error {
       }
     }
     g := p.NewJobGroup()
-    p.AddRangeJob(0, m, g, func(k int, p ThreadPool, erf func() error) error {
+    if err := p.AddRangeJob(0, m, g, func(k int, p ThreadPool, erf func() error) error {
       f := f   [p.GetThreadId()]
       t := t.At(p.GetThreadId())
       s := s.At(p.GetThreadId())
@@ -139,8 +139,12 @@ func (obj *NumericEstimator) Estimate(gamma ConstVector, p ThreadPool) error {
         r.Add(r, t)
       }
       return nil
-    })
-    p.Wait(g)
+    }); err != nil {
+      return nil, err
+    }
+    if err := p.Wait(g); err != nil {
+      return nil, err
+    }
     // sum up results from all threads
     for i := 1; i < r.Dim(); i++ {
       r.At(0).Add(r.At(0), r.At(i))
